@@ -35,6 +35,13 @@ def init(repo_root):
     _STATE["repo_root"] = repo_root
     _STATE["repo"] = extract.Repo(repo_root)
     _STATE["reg"] = load_registry()
+    kf = os.path.join(VERIF, "known_findings.json")
+    _STATE["reg"].known_regions = []
+    if os.path.exists(kf):
+        import json
+        for k in json.load(open(kf))["findings"]:
+            if k.get("status") == "known" and k.get("region") and k.get("function"):
+                _STATE["reg"].known_regions.append(k)
     for name in list(sys.modules):
         pass
     try:
@@ -45,6 +52,7 @@ def init(repo_root):
         from . import libmodels  # noqa: F401  pandas / sklearn / scipy models
     except ImportError:
         pass
+    from . import ensemble_model  # noqa: F401
     return _STATE["repo"], _STATE["reg"]
 
 
@@ -81,7 +89,7 @@ def report_dict(rep):
         obs.append({
             "name": ob.name, "kind": ob.kind, "tags": list(ob.tags), "verdict": ob.verdict, "backend": ob.backend,
             "time": round(ob.time, 4), "path": getattr(ob, "path", None), "where": ob.where, "clause": ob.clause,
-            "note": ob.note, "cex": getattr(ob, "cex", None),
+            "note": ob.note, "cex": getattr(ob, "cex", None), "known": getattr(ob, "known", None),
             "goal": (ob.goal.sexpr()[:600] if hasattr(ob.goal, "sexpr") else str(ob.goal)),
             "cross": getattr(ob, "cross", None),
         })
